@@ -28,7 +28,21 @@ struct aws_thread_scheduler {
 struct cancellation_node {
     struct aws_task *task_to_cancel;
     struct aws_linked_list_node node;
+    /* true if the cancel request took the task out of the hand-over queue itself: the scheduler never saw it */
+    bool removed_from_scheduling_queue;
 };
+
+/* A cancellation request races with the scheduler thread: by the time its record is processed the task may already
+ * have been run. aws_task_scheduler_cancel_task() invokes the task unconditionally, so a task that was handed to the
+ * scheduler is only given to it while it is still pending there (linked into one of its lists or in its timed queue);
+ * otherwise the task would be invoked a second time. A task the request itself removed from the hand-over queue never
+ * reached the scheduler and gets its one, cancelled, invocation here. */
+static void s_process_cancellation(struct aws_thread_scheduler *scheduler, struct cancellation_node *cancellation_node) {
+    struct aws_task *task = cancellation_node->task_to_cancel;
+    if (cancellation_node->removed_from_scheduling_queue || task->node.next != NULL || task->abi_extension.scheduled) {
+        aws_task_scheduler_cancel_task(&scheduler->scheduler, task);
+    }
+}
 
 static void s_destroy_callback(void *arg) {
     struct aws_thread_scheduler *scheduler = arg;
@@ -50,7 +64,7 @@ static void s_destroy_callback(void *arg) {
     while (!aws_linked_list_empty(&scheduler->thread_data.cancel_queue)) {
         struct aws_linked_list_node *node = aws_linked_list_pop_front(&scheduler->thread_data.cancel_queue);
         struct cancellation_node *cancellation_node = AWS_CONTAINER_OF(node, struct cancellation_node, node);
-        aws_task_scheduler_cancel_task(&scheduler->scheduler, cancellation_node->task_to_cancel);
+        s_process_cancellation(scheduler, cancellation_node);
         aws_mem_release(scheduler->allocator, cancellation_node);
     }
 
@@ -106,7 +120,7 @@ static void s_thread_fn(void *arg) {
         while (!aws_linked_list_empty(&cancel_list_cpy)) {
             struct aws_linked_list_node *node = aws_linked_list_pop_front(&cancel_list_cpy);
             struct cancellation_node *cancellation_node = AWS_CONTAINER_OF(node, struct cancellation_node, node);
-            aws_task_scheduler_cancel_task(&scheduler->scheduler, cancellation_node->task_to_cancel);
+            s_process_cancellation(scheduler, cancellation_node);
             aws_mem_release(scheduler->allocator, cancellation_node);
         }
 
@@ -232,6 +246,7 @@ void aws_thread_scheduler_cancel_task(struct aws_thread_scheduler *scheduler, st
 
     if (found_task) {
         aws_linked_list_remove(&found_task->node);
+        cancellation_node->removed_from_scheduling_queue = true;
     }
 
     cancellation_node->task_to_cancel = task;
